@@ -527,6 +527,10 @@ struct S3 {
 	mode: CMode,
 	delays: Delays,
 	pre: Arrive,
+	/// B is stopped and restarted from its current persisted state (manager written at that moment, monitors as
+	/// persisted) when its height first reaches the on-chain trigger height + this many blocks
+	#[serde(default)]
+	restart_b: Option<u8>,
 }
 
 fn cmode_strategy() -> impl Strategy<Value = CMode> + Clone {
@@ -539,7 +543,7 @@ fn cmode_strategy() -> impl Strategy<Value = CMode> + Clone {
 }
 
 fn s3_strategy() -> impl Strategy<Value = S3> + Clone {
-	(env_strategy(), proptest::bool::weighted(0.12), prop_oneof![Just(0u8), 0u8..12], cmode_strategy(), delays_strategy(), arrive_strategy()).prop_map(|(env, dust, fd_extra, mode, delays, pre)| S3 { env, dust, fd_extra, mode, delays, pre })
+	(env_strategy(), proptest::bool::weighted(0.12), prop_oneof![Just(0u8), 0u8..12], cmode_strategy(), delays_strategy(), arrive_strategy(), proptest::option::weighted(0.3, 0u8..26)).prop_map(|(env, dust, fd_extra, mode, delays, pre, restart_b)| S3 { env, dust, fd_extra, mode, delays, pre, restart_b })
 }
 
 fn fixed_env(ctype: CType, s: u8) -> Env {
@@ -569,7 +573,7 @@ fn s3_enumeration() -> Vec<S3> {
 		for (mi, mode) in modes.iter().enumerate() {
 			for (di, (d_commit, d_htlc, cross_burst)) in ENUM_DELAYS.iter().enumerate() {
 				let s = (mi * 5 + di * 3) as u8;
-				v.push(S3 { env: fixed_env(ctype, s), dust: false, fd_extra: (s % 3) as u8, mode: *mode, delays: Delays { d_commit: *d_commit, d_htlc: *d_htlc, cross_burst: *cross_burst }, pre: [Arrive::Burst, Arrive::Single, Arrive::SinglePump][(s % 3) as usize] });
+				v.push(S3 { env: fixed_env(ctype, s), dust: false, fd_extra: (s % 3) as u8, mode: *mode, delays: Delays { d_commit: *d_commit, d_htlc: *d_htlc, cross_burst: *cross_burst }, pre: [Arrive::Burst, Arrive::Single, Arrive::SinglePump][(s % 3) as usize], restart_b: None });
 			}
 		}
 	}
@@ -647,6 +651,7 @@ fn s3_inner(c: &S3, ctx: &mut Ctx, d: &mut Drv) -> CaseResult {
 	let end = in_exp + grace + 2;
 	let mut acted = action_at.is_none();
 	let mut crossed = false;
+	let mut restarted = false;
 	while d.sim.chain.height() < end {
 		let hb = d.sim.height_of(b);
 		if !crossed && hb + 1 == trigger && c.delays.cross_burst > 0 && d.sim.chain.mempool.is_empty() && acted_or_later(acted, action_at, trigger + c.delays.cross_burst as u32) {
@@ -659,6 +664,21 @@ fn s3_inner(c: &S3, ctx: &mut Ctx, d: &mut Drv) -> CaseResult {
 			ctx.label("s3:trigger-crossed-in-burst");
 		} else {
 			d.step_block(&plan, &hash);
+		}
+		if let Some(off) = c.restart_b {
+			if !restarted && d.sim.height_of(b) >= trigger + off as u32 {
+				restarted = true;
+				ctx.label("s3:forwarder-restarted-during-resolution");
+				let up_connected = d.sim.is_connected(a, b);
+				d.sim.snapshot_manager(b);
+				if let Err(e) = d.sim.restart(b, 0, false) {
+					vfail!("harness", "restart of B from its current persisted state failed: {}", e);
+				}
+				if up_connected {
+					d.sim.reconnect(a, b);
+				}
+				d.pump();
+			}
 		}
 		if !acted && d.sim.height_of(b) as i64 >= action_at.unwrap() {
 			acted = true;
